@@ -878,6 +878,117 @@ def c18_pipeline_scenarios(coll, stats):
     stats['c18_pipeline_configs'] = n
 
 
+def c18_chain_configs():
+    """Declared dependencies for the three-evolution app: at most two of
+    {evolution e2, evolution e3, the app} x {AFTER, BEFORE}_MIGRATIONS x
+    {vm.0001_initial, vm.0002_add_x} (the same dependency may be stated by
+    the app and restated by an evolution)."""
+    holders = [('va', 'e2'), ('va', 'e3'), ('va', None)]
+    opts = [(k, ('vm', m)) for k in ('AFTER_MIGRATIONS', 'BEFORE_MIGRATIONS')
+            for m in ('0001_initial', '0002_add_x')]
+    one = [[(h, o)] for h in holders for o in opts]
+    two = [[(h1, o1), (h2, o2)]
+           for i, h1 in enumerate(holders) for h2 in holders[i + 1:]
+           for o1 in opts for o2 in opts
+           if o1[0] == 'AFTER_MIGRATIONS' or o2[0] == 'AFTER_MIGRATIONS']
+    return [[]] + one + two
+
+
+def c18_chain_scenarios(coll, stats, tier):
+    """C18 through the Evolver, second family: app va has evolution e1
+    applied and e2, e3 pending (each adds a field to va_item); app vab
+    (already installed) has applied an evolution that is also called e2;
+    app vm is new and created by its two migrations in the same run.  The
+    two pending evolutions cost ONE rewrite of va_item unless a declared
+    dependency orders a migration against one of them only."""
+    from vf.checks import c09_pipeline as CP
+    from vf.spec import F, M, A, P
+
+    def proj(version):
+        item = M('Item', [F('a', 'Char', max_length=20)] + [
+            F('n%d' % i, 'Int', null=True) for i in range(1, version + 1)])
+        thing = M('Thing', [F('t', 'Char', max_length=20),
+                            F('n1', 'Int', null=True)])
+        apps = [A('va', [item]), A('vab', [thing])]
+        if version >= 3:
+            apps.append(A('vm', [M('Doc', [F('title', 'Char', max_length=20),
+                                           F('x', 'Int', null=True)])]))
+        return P(*apps)
+
+    def install(version, deps):
+        dmap = {}
+        for (h, (kind, target)) in deps:
+            dmap.setdefault(h, {}).setdefault(kind, []).append(tuple(target))
+        mods = {}
+        for i in range(1, version + 1):
+            b = {'MUTATIONS': [ML.to_real(['AddField', 'Item', 'n%d' % i,
+                                           'Int', {'null': True}, None])]}
+            b.update(dmap.get(('va', 'e%d' % i), {}))
+            mods['e%d' % i] = b
+        evos = {'va': {'SEQUENCE': ['e%d' % i for i in range(1, version + 1)],
+                       'modules': mods, 'top': dmap.get(('va', None), {})},
+                'vab': {'SEQUENCE': ['e2'], 'modules': {'e2': {
+                    'MUTATIONS': [ML.to_real(['AddField', 'Thing', 'n1',
+                                              'Int', {'null': True},
+                                              None])]}}}}
+        migs = {'vm': [('0001_initial', CP.MIG1), ('0002_add_x', CP.MIG2)]} \
+            if version >= 3 else None
+        return MZ.install(proj(version), evolutions=evos, migrations=migs)
+
+    install(1, [])
+    B.fresh_db('default')
+    B.reset_globals()
+    r = D.d2_all()
+    assert r.ok, r.exc
+    img = B.snapshot('default')
+    n = 0
+    cfgs = c18_chain_configs()
+    for deps in cfgs:
+        # may a migration lie between e2 and e3?  Only if a declared
+        # dependency orders it against ONE of the two (e3 must follow it
+        # while e2 need not, or e2 must precede it while e3 need not): then
+        # "e2, migration, e3" is a schedule the dependencies ask for and two
+        # rewrites are accepted.  A dependency stated for the whole app, or
+        # by both evolutions, constrains both alike: one rewrite.
+        order = {'0001_initial': 1, '0002_add_x': 2}
+
+        def after(el):
+            ms = [order[t[1]] for (h, (k, t)) in deps
+                  if k == 'AFTER_MIGRATIONS' and h in (('va', el),
+                                                       ('va', None))]
+            return set(range(1, max(ms) + 1)) if ms else set()
+
+        def before(el):
+            ms = [order[t[1]] for (h, (k, t)) in deps
+                  if k == 'BEFORE_MIGRATIONS' and h in (('va', el),
+                                                        ('va', None))]
+            return set(range(min(ms), 3)) if ms else set()
+        forced = bool(after('e3') - after('e2')) or \
+            bool(before('e2') - before('e3'))
+        # a cycle (e2 or the app after a migration that e3/the app must
+        # precede) is refused by the graph: not a C18 matter
+        install(3, deps)
+        B.restore(img, 'default')
+        B.reset_globals()
+        tracer = O.Tracer('default')
+        res = D.d2_all(tracer=tracer)
+        n += 1
+        if not res.ok:
+            stats['c18_chain_failed'] = stats.get('c18_chain_failed', 0) + 1
+            continue
+        rb = [t for t in D.rebuilds(tracer.effects()) if t == 'va_item']
+        bound = 2 if forced else 1
+        if len(rb) > bound:
+            coll.add('C18|run-not-merged|chain|%s' % '+'.join(sorted(
+                '%s:%s->%s' % ('app' if h[1] is None else h[1],
+                               k.split('_')[0].lower(), t[1][:4])
+                for (h, (k, t)) in deps)),
+                {'scenario': 'chain',
+                 'deps': [[list(h), [k, list(t)]] for (h, (k, t)) in deps]},
+                {'rebuilds_of_va_item': len(rb), 'bound': bound})
+    stats['c18_chain_configs'] = n
+
+
 def run(tier, seed, confirm=True, prop='C03'):
     t0 = time.time()
     tasks, total, c3, c18 = run_both(tier, seed)
@@ -885,6 +996,7 @@ def run(tier, seed, confirm=True, prop='C03'):
         from vf import bootstrap
         bootstrap.setup()
         c18_pipeline_scenarios(c18, total)
+        c18_chain_scenarios(c18, total, tier)
     coll = c3 if prop == 'C03' else c18
     coverage = {
         'states': max(1, total['end_states']),
@@ -932,9 +1044,12 @@ def run(tier, seed, confirm=True, prop='C03'):
 def replay(path, prop='C03'):
     doc = common.load_replay(path)
     r = doc['replay']
-    if r.get('scenario') == 'pipeline':
+    if r.get('scenario') in ('pipeline', 'chain'):
         coll = findings.Collector('C18')
-        c18_pipeline_scenarios(coll, {})
+        if r['scenario'] == 'pipeline':
+            c18_pipeline_scenarios(coll, {})
+        else:
+            c18_chain_scenarios(coll, {}, 'thorough')
         for fp in coll.by_fp:
             print('  %s' % fp)
         if doc['fingerprint'] in coll.by_fp:
